@@ -362,9 +362,9 @@ GENERIC_FILES = ['permuta/patterns/perm.py', 'permuta/patterns/meshpatt.py']
 
 
 def variants():
-    from ..selftest import generic_silent
+    from ..selftest import generic_equiv, generic_silent
 
-    return _variants() + generic_silent(GENERIC_FILES)
+    return _variants() + generic_silent(GENERIC_FILES) + generic_equiv(GENERIC_FILES)
 
 
 def _variants():
@@ -407,6 +407,8 @@ def _variants():
         V("decreasing-misses-zero", replace_expr(PE, "Perm.monotone_decreasing", "range(length - 1, -1, -1)", "range(length - 1, 0, -1)"), "fire", "C09-D1"),
         V("from-integer-not-reversed", replace_expr(PE, "Perm.from_integer", "cls.to_standard(reversed(digit_list))", "cls.to_standard(digit_list)"), "fire", "C09-D1"),
         V("from-string-paren-off-by-one", replace_expr(PE, "Perm.from_string", "string[1:-1]", "string[1:]"), "fire", "C09-D1"),
+        V("rank-vals-appended-not-inserted", replace_stmt("permuta/patterns/perm.py", "Perm.rank", "vals.insert(ordered_pos, val)", "vals.append(val)"), "undecided", "C09-S1"),
+        V("rank-search-on-set-order", [replace_stmt("permuta/patterns/perm.py", "Perm.rank", "vals: List[int] = []", "vals = list(set(self))"), replace_stmt("permuta/patterns/perm.py", "Perm.rank", "vals.insert(ordered_pos, val)", "")], "fire-or-undecided", "C09-S1"),
         # silent
         V("reformat", reformat_only(MP), "silent"),
         V("str-compact-by-max-9", replace_expr(PE, "Perm.__str__", "len(self) <= 10", "max(self) <= 9"), "silent"),
@@ -644,3 +646,25 @@ def run(ctx: Ctx) -> None:  # noqa: F811
 
 
 FLOORS["C09-F1"] = 3
+
+
+# ------------------------------------------------------------------ C09-S1: binary searches run on sequences sorted by construction
+
+
+def rule_bisect(ctx: Ctx) -> None:
+    from ..core import check_bisect_preconditions
+
+    n = check_bisect_preconditions(ctx, "C09-S1", ['permuta.patterns.perm'])
+    if n == 0:
+        ctx.ok("C09-S1", "permuta.patterns.perm", "no binary search in the anchored modules (nothing to establish)")
+
+
+_OLD_RUN_BISECT = run
+
+
+def run(ctx: Ctx) -> None:  # noqa: F811
+    _OLD_RUN_BISECT(ctx)
+    ctx.run(rule_bisect, ctx)
+
+
+FLOORS["C09-S1"] = 1
